@@ -27,7 +27,18 @@ func randomSymGraph(r *rand.Rand, maxNodes, faultRate int) *sgraphCase {
 		c.initVals[n] = stens{[]int{1}, int64(2000 + r.Intn(900))}
 		avail = append(avail, n)
 		if r.Intn(3) == 0 { // initializer also declared as graph input (a default)
-			c.inputs = append(c.inputs, sinput{name: n, dims: one})
+			// ... with a shape, without any shape information, or as a rank-0 value info
+			switch r.Intn(3) {
+			case 0:
+				c.inputs = append(c.inputs, sinput{name: n, noShape: true})
+			case 1:
+				c.inputs = append(c.inputs, sinput{name: n, dims: nil})
+			default:
+				c.inputs = append(c.inputs, sinput{name: n, dims: one})
+			}
+			if false {
+				c.inputs = append(c.inputs, sinput{name: n, dims: one})
+			}
 			if r.Intn(2) == 0 { // and the caller overrides it
 				c.feed[n] = stens{[]int{1}, int64(5000 + r.Intn(900))}
 				c.feedOrd = append(c.feedOrd, n)
